@@ -1287,7 +1287,17 @@ func ruleRootOverrideDropsFrontierState(w *core.World, r *core.Report) {
 		return core.Site{}, nil
 	}
 	n := 0
-	for _, b := range f.Blocks {
+	// the start point itself and the helpers of the package its phases may live in
+	var blocks []*ssa.BasicBlock
+	for _, g := range reachableFuncs(f) {
+		if g == f || (g.Parent() == nil && core.Transparent != nil && core.Transparent(g)) {
+			blocks = append(blocks, g.Blocks...)
+		}
+	}
+	top := f
+	for _, b := range blocks {
+		f := b.Parent()
+		_ = top
 		iff, ok := b.Instrs[len(b.Instrs)-1].(*ssa.If)
 		if !ok {
 			continue
